@@ -84,7 +84,7 @@ func walkCmds(cfg CfgRec) []CmdRec {
 					add(CmdRec{C: "BDAT", A: "badlast", N: n})
 				}
 			}
-			for _, p := range []string{"acc", "rej", "early", "panic", "mid1", "mid4", "eacc"} {
+			for _, p := range []string{"acc", "rej", "early", "panic", "mid1", "mid4", "eacc", "eacc1", "eacc4"} {
 				add(CmdRec{C: "BDAT", N: n, L: l, P: p})
 			}
 		}
